@@ -702,6 +702,8 @@ var engCorpus = func() []engCase {
 	rtl, re2, ci, sl, n := int32(regexp2.RightToLeft), int32(regexp2.RE2), int32(regexp2.IgnoreCase), int32(regexp2.Singleline), int32(regexp2.ExplicitCapture)
 	cs := []engCase{
 		{Pattern: `(?:ab*){2}`, Text: R("abab")},
+		{Pattern: `\uFFFFa`, Text: R("x\uFFFFa")},
+		{Pattern: `\uFFFFab`, Text: R("xx\uFFFFab")},
 		{Pattern: `a{64}c`, Opts: rtl, Text: R("zz" + strings.Repeat("a", 64) + "cyy"), Start: 69},
 		{Pattern: `(?<=(?:a*ba){2})c`, Text: R("baabac")},
 		{Pattern: `(?<=(?:a*ca){2})`, Text: R("aacaca")},
